@@ -5,7 +5,8 @@
 (***************************************************************************)
 EXTENDS AioCond, P_Event, Json
 
-CONSTANTS Ops, MaxOps, MaxEnv, EnvKinds
+CONSTANTS Ops, MaxOps, MaxEnv, EnvKinds,
+          Retry      \* TRUE: a client whose scope absorbed its cancellation opens a fresh one and carries on
 
 VARIABLES L, E, hist, pst, pbad
 vars == <<K, L, E, hist, pst, pbad>>
@@ -68,9 +69,13 @@ ClientRet(t) ==
 
 ClientFin(t) ==
   /\ At(K, t, "client", "fin")
-  /\ LET x == ScopeExit(K, t, Reg(K, t)) IN
-     K' = IF IsExc(x.reg) THEN Raise(x.q, t, x.reg) ELSE Ret(x.q, t)
-  /\ UNCHANGED <<L, E, hist, pst, pbad>>
+  /\ LET x == ScopeExit(K, t, Reg(K, t))
+         again == Retry /\ x.caught IN
+     /\ K' = IF again THEN SetPc(ScopeEnter(x.q, t, FALSE, INF, FALSE, "task"), t, "choose")
+                  ELSE IF IsExc(x.reg) THEN Raise(x.q, t, x.reg) ELSE Ret(x.q, t)
+     /\ E' = IF again THEN [E EXCEPT !.scoped = @ \ {t}] ELSE E
+     /\ IF again THEN Feed([ev |-> "cdone", t |-> t]) ELSE UNCHANGED <<pst, pbad>>
+  /\ UNCHANGED <<L, hist>>
 
 LibStep(t) ==
   \/ /\ HelperEnabled(K, t)
